@@ -23,6 +23,9 @@ def run_check(prop, tier="quick", root=None, quiet=False):
             mod.check(rep)
             if tier == "thorough" and hasattr(mod, "check_thorough"):
                 mod.check_thorough(rep)
+            from .rules.packs import run_packs
+
+            run_packs(rep)
             from .rules.common import rule_debug_pure
 
             rule_debug_pure(rep, set(rep.repo.consulted))
